@@ -112,6 +112,9 @@ class Discretizer(BaseDiscretizer):
 
     @extend_docstring(BaseDiscretizer.fit)
     def fit(self, X: DataFrame, y: Series) -> None:  # pylint: disable=W0222
+        # refusing to fit an already fitted object, before anything is modified
+        self._check_is_not_fitted()
+
         # Checking for binary target and copying X
         x_copy = self._prepare_data(X, y)
 
@@ -374,6 +377,9 @@ class QualitativeDiscretizer(BaseDiscretizer):
 
     @extend_docstring(BaseDiscretizer.fit)
     def fit(self, X: DataFrame, y: Series) -> None:  # pylint: disable=W0222
+        # refusing to fit an already fitted object, before anything is modified
+        self._check_is_not_fitted()
+
         # checking data before bucketization
         x_copy = self._prepare_data(X, y)
 
@@ -524,6 +530,9 @@ class QuantitativeDiscretizer(BaseDiscretizer):
 
     @extend_docstring(BaseDiscretizer.fit)
     def fit(self, X: DataFrame, y: Series) -> None:  # pylint: disable=W0222
+        # refusing to fit an already fitted object, before anything is modified
+        self._check_is_not_fitted()
+
         # checking data before bucketization
         x_copy = self._prepare_data(X, y)
 
